@@ -377,7 +377,17 @@ func (m Manager) SetNodeResourceCapacity(ctx context.Context, nodename string, n
 
 func (m Manager) mergeCapacity(m1 map[string]*plugintypes.NodeDeployCapacity, m2 map[string]*plugintypes.NodeDeployCapacity) map[string]*plugintypes.NodeDeployCapacity {
 	if m1 == nil {
-		return m2
+		// start the weighted sums with the first answer (and do not modify the plugin's own response)
+		resp := map[string]*plugintypes.NodeDeployCapacity{}
+		for nodename, info := range m2 {
+			resp[nodename] = &plugintypes.NodeDeployCapacity{
+				Capacity: info.Capacity,
+				Rate:     info.Rate * info.Weight,
+				Usage:    info.Usage * info.Weight,
+				Weight:   info.Weight,
+			}
+		}
+		return resp
 	}
 
 	resp := map[string]*plugintypes.NodeDeployCapacity{}
